@@ -42,11 +42,14 @@ type c22Vec struct {
 		Env  string              `json:"env"`
 		Dir  string              `json:"dir"`
 		Cfg  []map[string]c22Tok `json:"cfg"`
+		PP   bool                `json:"pp"` // a vector that varies the port text: also evaluated on the port pairs
 	} `json:"in"`
 	Exp struct {
 		Loads     string `json:"loads"`
 		Allow     []int  `json:"allow"`
 		Either    []int  `json:"either"`
+		PAllow    []int  `json:"pallow"`
+		PEither   []int  `json:"peither"`
 		NReadings int    `json:"nreadings"`
 	} `json:"exp"`
 }
@@ -224,6 +227,24 @@ func TestVerif_C22(t *testing.T) {
 			return fmt.Sprintf("%s:%s:%s:pkt=%s", what, want, desc, w.u.Pkts[id/10-1].Proto)
 		}
 		drops.Add(int64(w.checkVerdicts(res, fw, v.In.Env, exp, []string{v.In.Dir}, key, detail)))
+		if v.In.PP {
+			// the port text against the port pairs: ports inside, on the edges and just outside the ranges of the lattice,
+			// port 0, packets without ports (fragments), tcp / udp / icmp / another protocol
+			pexp := fwVerdicts{}
+			if v.In.Dir == "in" {
+				pexp.AllowIn, pexp.EitherIn = v.Exp.PAllow, v.Exp.PEither
+			} else {
+				pexp.AllowOut, pexp.EitherOut = v.Exp.PAllow, v.Exp.PEither
+			}
+			pkey := func(what, dir, want string, id int) string {
+				return fmt.Sprintf("%s:%s:%s:pkt=%s", what, want, desc, fwPktClass(w.u.PPkts[id/10-1], dir))
+			}
+			res.Hit("port-pairs")
+			if pt := strings.TrimSpace(v.In.Cfg[0]["port"].text()); strings.Contains(pt, "6553") {
+				res.Hit("port-pairs:" + strings.ReplaceAll(pt, " ", "")) // the texts at the top of the port space
+			}
+			drops.Add(int64(w.checkVerdictsOn(res, fw, w.u.PPairs[v.In.Env], w.ppacket, v.In.Env, pexp, []string{v.In.Dir}, pkey, detail)))
+		}
 	})
 	res.Extra["drops"] = drops.Load()
 	res.Extra["vectors"] = n
